@@ -1,5 +1,6 @@
 from __future__ import print_function
 
+import re
 import sys
 from bisect import insort
 from ast import iter_fields, Store, Load, NodeVisitor, parse, Tuple, List, AST
@@ -341,6 +342,16 @@ def marked(name):
     return SOURCE_MARK in name
 
 
+def split_lines(source):
+    # type: (str) -> list[str]
+    # lines as the Python tokenizer counts them: only \n, \r\n and \r end a
+    # line (str.splitlines also splits at form feeds, \x1c-\x1e, \x85, ...)
+    lines = re.split('\r\n|\r|\n', source)
+    if lines and not lines[-1]:
+        lines.pop()
+    return lines
+
+
 class Source(object):
     def __init__(self, source, filename=None, position=None):
         # type: (str, str | None, tuple[int, int] | None) -> None
@@ -348,7 +359,7 @@ class Source(object):
         self.filename = filename or '<string>'
         if position:
             ln, col = position
-            lines = source.splitlines() or ['']
+            lines = split_lines(source) or ['']
             if ln > len(lines):
                 lines.append('')
             line = lines[ln-1]
@@ -370,7 +381,7 @@ class Source(object):
     @cached_property
     def lines(self):
         # type: () -> list[str]
-        return self.source.splitlines() or ['']
+        return split_lines(self.source) or ['']
 
 
 def dump_flows(scope, fd=None):
